@@ -471,6 +471,94 @@ def rfc6979_rules(prog, chk, pid):
     chk.require(oko, P("rfc6979-bits2octets"), fo.qualname, "z1 = bits2int(data, qlen); z2 = z1 - q; int2octets(z2 if z2 >= 0 else z1)", "%s:%d" % (fo.file, fo.lineno), "bits2octets reduces once modulo q (RFC 6979 2.3.4)", "bits2octets is not z1 mod q by one conditional subtraction")
 
 
+def hash_consistency_rules(prog, chk, pid):
+    """one hash function per signature: the function that hashes the message is the one handed to the RFC 6979 nonce derivation
+    (sign_deterministic -> sign_digest_deterministic -> generate_k), selected as `hashfunc or self.default_hashfunc`"""
+    P = lambda s: "%s.%s" % (pid, s)
+    K = E + "keys."
+
+    def run(q):
+        fi = prog.func(K + q)
+        ex = Exec(prog, policy=lambda e, f, d: False)
+        return fi, ex, ex.run(fi)
+
+    def is_sel(t, fi):
+        """hashfunc or self.default_hashfunc"""
+        t = unsnap(t)
+        txt = show(t, 5)
+        return t.op in ("or", "phi") and "hashfunc" in txt and "default_hashfunc" in txt
+
+    def hash_calls(res_, fi):
+        """calls of the selected hash function: either one call of the `a or b` term, or (the interpreter's dispatch of such a call)
+        one call per alternative under a common choice frame"""
+        direct = [e for e in res_.events if e.kind == "dyncall" and is_sel(e.d["fnterm"], fi)]
+        if direct:
+            return direct
+        alts = [e for e in res_.events if e.kind in ("dyncall", "mcall", "call") and any(f[0] == "choice" for f in e.ctx) and (e.kind != "mcall" or e.d.get("name") == "default_hashfunc")]
+        names = " | ".join(show(e.d.get("fnterm"), 4) if e.kind == "dyncall" else str(e.d.get("name") or e.d.get("callee")) for e in alts)
+        if len(alts) == 2 and "default_hashfunc" in names and any(e.kind == "dyncall" and unsnap(e.d["fnterm"]).op == "param" and unsnap(e.d["fnterm"]).args[0] == "hashfunc" for e in alts):
+            return alts
+        return []
+
+    # sign_deterministic: hashes with h = hashfunc or default; passes hashfunc=h on
+    fi, ex, res = run("SigningKey.sign_deterministic")
+    where = "%s:%d" % (fi.file, fi.lineno)
+    hcalls = hash_calls(res, fi)
+    nxt = [e for e in res.events if e.kind == "call" and e.d["callee"].name == "sign_digest_deterministic"]
+    ok = len(hcalls) >= 1 and len(nxt) == 1
+    why = "message is not hashed with (hashfunc or self.default_hashfunc), or sign_digest_deterministic is not called exactly once"
+    if ok:
+        passed = nxt[0].d["kwargs"].get("hashfunc")
+        if passed is None:
+            names = nxt[0].d["callee"].params
+            a = nxt[0].d["args"]
+            if "hashfunc" in names and names.index("hashfunc") < len(a):
+                passed = a[names.index("hashfunc")]
+        ok = passed is not None and is_sel(passed, fi)
+        why = "the hash function that hashed the message (hashfunc or self.default_hashfunc) is not the one passed to the nonce derivation (%s)" % (show(passed, 4)[:50] if passed is not None else "none: the key's default is used")
+        if ok:
+            dg = unsnap(nxt[0].d["args"][1])
+            mc = meth_call(dg)
+            ok = mc is not None and mc[1] == "digest" and "hashfunc" in show(mc[0], 5)
+            why = "the digest signed is not hashfunc(data).digest()"
+    chk.require(ok, P("deterministic-one-hash"), fi.qualname, "h = hashfunc or default; sign_digest_deterministic(h(data).digest(), hashfunc=h, ...)", where,
+                "the message digest and the RFC 6979 HMAC use the same hash function", why)
+    # sign_digest_deterministic: generate_k(order, secexp, hashfunc or default, digest, retry_gen, extra_entropy)
+    fi, ex, res = run("SigningKey.sign_digest_deterministic")
+    where = "%s:%d" % (fi.file, fi.lineno)
+    gk = [e for e in res.events if e.kind == "call" and e.d["callee"].name == "generate_k"]
+    sd = [e for e in res.events if e.kind == "call" and e.d["callee"].name == "sign_digest"]
+    ok = len(gk) == 1 and len(sd) == 1
+    why = "generate_k / sign_digest are not each called at one site"
+    if ok:
+        a = [unsnap(x) for x in gk[0].d["args"]]
+        kw = gk[0].d["kwargs"]
+        okorder = len(a) >= 4 and "order" in show(a[0], 4) and "generator" in show(a[0], 5)
+        oksec = "secret_multiplier" in show(a[1], 4)
+        okh = is_sel(a[2], fi)
+        dterm = a[3]
+        okd = "digest" in show(dterm, 5) and unsnap(sd[0].d["args"][1]) is dterm
+        okk = unsnap(sd[0].d["kwargs"].get("k", NONE)) is unsnap(gk[0].d["result"])
+        okretry = "retry_gen" in kw and unsnap(kw["retry_gen"]).op == "loopvar"
+        okextra = "extra_entropy" in kw and "extra_entropy" in show(kw["extra_entropy"], 5)
+        ok = okorder and oksec and okh and okd and okk and okretry and okextra
+        why = "generate_k arguments (order, secret, hash, digest = signed digest, k handed to sign_digest, retry counter, extra entropy) ok: %s" % ((okorder, oksec, okh, okd, okk, okretry, okextra),)
+    chk.require(ok, P("deterministic-nonce-inputs"), fi.qualname, "k = generate_k(generator.order(), secret, hashfunc or default, digest, retry_gen, extra_entropy); sign_digest(digest, k=k)", where,
+                "the nonce is derived from the curve order, the private scalar, the selected hash, the very digest that is signed, the retry counter and the extra entropy", why)
+    # sign / verify: the digest handed on is (hashfunc or default)(data).digest()
+    for q, nxtname in (("SigningKey.sign", "sign_digest"), ("VerifyingKey.verify", "verify_digest")):
+        fi, ex, res = run(q)
+        hcalls = hash_calls(res, fi)
+        nxt = [e for e in res.events if e.kind == "call" and e.d["callee"].name == nxtname]
+        ok = len(hcalls) >= 1 and len(nxt) >= 1
+        if ok:
+            for e in nxt:
+                dargs = [unsnap(x) for x in e.d["args"]]
+                ok = ok and any(meth_call(x) is not None and meth_call(x)[1] == "digest" and "hashfunc" in show(meth_call(x)[0], 5) for x in dargs)
+        chk.require(ok, P("message-hash-selected"), fi.qualname, "%s((hashfunc or self.default_hashfunc)(data).digest(), ...)" % nxtname, "%s:%d" % (fi.file, fi.lineno),
+                    "the message is hashed with the function given, else the key's default, and that digest is what is signed / verified", "the digest handed to %s is not (hashfunc or default)(data).digest()" % nxtname)
+
+
 def run(prog, chk, tier):
     chk.explanation = ("Only the structural part of the statement is decided: the range guards on r and s (normal forms Lt(x, 1), Lt(n-1, x), returning False) dominate the modular "
                        "inversion; the verification verdict is the ECDSA equation as a data-flow fact; signing never returns r = 0 or s = 0 and the deterministic variant "
@@ -485,5 +573,6 @@ def run(prog, chk, tier):
     canon_rules(prog, chk, "C18")
     digest_rules(prog, chk, "C18")
     rfc6979_rules(prog, chk, "C18")
+    hash_consistency_rules(prog, chk, "C18")
     chk.assume("group orders are >= 2, so fixed-length signature fields are at least one byte long")
     chk.assume("numeric correctness of ECDSA (group law: C17 clauses; hash functions; RFC 6979 HMAC-DRBG) is outside this check")
